@@ -424,5 +424,5 @@ func TestC05(t *testing.T) {
 	s.Rec.Extra("exhaustive", complete && !s.Failed())
 	s.Rec.Extra("exhaustive_subdomain", "every (basis position, window, digit 1..2^w-1, carry-in mode {none, from the window below, chain of 2^w-1 windows from window 0}) single-coefficient vector with scalar < r")
 	c05Digit.Run(s, 0) // corpus replay only
-	c05Vec.Run(s, hx.PerShard(hx.Pick(960, 16000)))
+	c05Vec.Run(s, hx.PerShard(hx.Pick(960, 160000)))
 }
